@@ -407,7 +407,9 @@ fn _parse_file_path(path: &str, git_diff_name: bool) -> String {
     // When git config 'core.quotepath = true' (the default), and `path` contains
     // non-ASCII characters, a backslash, or a quote; then it is quoted, so remove
     // these quotes. Characters may also be escaped, but these are left as-is.
-    let path = remove_surrounding_quotes(path);
+    // (The quotes are looked for after the tab described below has been removed: a quoted
+    // path that contains a space is written as `"a/\303\274 b.txt"├──┤`.)
+    //
     // It appears that, if the file name contains a space, git appends a tab
     // character in the diff metadata lines, e.g.
     // $ git diff --no-index "a b" "c d" | cat -A
@@ -415,7 +417,8 @@ fn _parse_file_path(path: &str, git_diff_name: bool) -> String {
     // index·d00491f..0cfbf08·100644␊
     // ---·a/a·b├──┤␊
     // +++·b/c·d├──┤␊
-    match path.strip_suffix('\t').unwrap_or(path) {
+    let path = remove_surrounding_quotes(path.strip_suffix('\t').unwrap_or(path));
+    match path {
         "/dev/null" => "/dev/null",
         path if git_diff_name && DIFF_PREFIXES.iter().any(|s| path.starts_with(s)) => &path[2..],
         path if git_diff_name => path,
